@@ -1,6 +1,54 @@
 /-
-  Sipsp.Proofs.AuditFixB — gaps found by the audit of C10 (A), C12 (B), C02 (C).  Lemma file; the theorems are
-  re-exported in the Properties files.
+  Sipsp.Proofs.AuditFixB — gaps found by the sceptical audit of C10 (A), C12 (B), C02 (C).  Lemma file; the theorems
+  are meant to be re-exported in Properties/C10.lean, C12.lean, C02.lean.  All statements are about the model.
+
+  (A) C10 — the RANGE half at run level (the existing `uint_value_exact` / `cseq_value_exact` only say "the number is
+      the value of the reported digit string"; `uiVal` / `cseqNo` are unbounded `Nat` in the model).
+      * `afb_parseUIntVal_u32`, `afb_parseCLenVal_u32`: any buffer, offset, ANY verdict — the number of the returned
+        object is ≤ 2^32-1 whenever that of the object passed in is (new object: 0); `afb_uint_ok_le` (the OK form).
+      * `afb_parseCSeqVal_range`, `afb_cseq_ok_le`: the same for `cseqNo`, and after OK `cseq.len ≤ 10`
+        (`afb_csFinish_ok`, `afb_csFinish_long`: the end-of-header code accepts iff ≤ 10 bytes and ≤ 2^32-1).
+      * ParseCLenVal: `C10.clen_range` already IS the run-level statement (no hypothesis on the object);
+        `afb_clen_exact_in_range` packages it with exactness.
+      * invariants after MoreBytes: `afb_uint_more_inv`, `afb_clen_more_inv`, `afb_cseq_more_inv` — `ClNum` / `CsNum`
+        hold of the returned object at the returned offset on every extension of the buffer, the offset is inside
+        the buffer, the object is not finished.  Packaged: `AfbClLegit` / `AfbCsLegit` (new: `afb_ClLegit_new`,
+        `afb_CsLegit_new`; re-established: `afb_uint_more_legit`, `afb_clen_more_legit`, `afb_cseq_more_legit`) and
+        `afb_uint_exact_in_range`, `afb_clen_exact_in_range`, `afb_cseq_exact_in_range` (exact AND in range);
+        every chunk schedule from a new object: `afb_uint_schedule`, `afb_clen_schedule`, `afb_cseq_schedule`.
+      * the converse (rejection): `afb_uint_big_rejected(_ws)`, `afb_clen_big_rejected_ws`, `afb_cseq_big_rejected(_ws)` —
+        new object, optional spaces / tabs, a digit string of value > 2^32-1 ⇒ NumTooBig at one of its digits,
+        WHATEVER follows (no terminator needed); `afb_uint_big_resumed`, `afb_cseq_big_resumed`: the same for a call
+        resumed in the middle of the number.  `afb_uint_canonical`, `afb_clen_canonical`: complete behaviour on
+        "[spaces] digits CR LF non-continuation": OK with exactly the value and the field iff in range (2^32-1 resp.
+        2^24 and 9 digits), NumTooBig otherwise.
+      * the reply status at run level is C08 `status_value` (not repeated here).
+      NOT proved: the complete canonical-input statement for CSeq (it needs the method part); a CSeq number field
+      longer than 10 digits (leading zeros) is shown to be rejected at the end-of-header code (`afb_csFinish_long`) and
+      never accepted (`afb_cseq_ok_le`), but no closed-form "input ⇒ NumTooBig" theorem is given for it.
+  (B) C12.
+      (i) `afb_msg_reset_reach`: for every `m` reachable by any history (`ScReach`), `m.reset` is literally the new
+      object of the same capacities (`afbNewMsg`); `afb_msg_reset_like_new(_schedule)`: every later call (chain of
+      calls) returns what it returns on the new object; `afb_msg_reset_like_new0` + `afb_parseSIPMsg_bufLen`: also
+      against the new object with no retained buffer (the retained length is write-only).  Init: `afb_msg_init_any`,
+      `afb_msg_init_indep`, `afb_msg_init_like_new` — for EVERY object (no reachability needed) Init's result does
+      not depend on the object; it is the new object iff the arrays handed in are cleared.  `afb_hv_reset_reach`,
+      `afb_hv_reset_like_new` (`AfbHvReach`), `afb_ct_reset_reach`, `afb_ct_reset_like_new` (`AfbCtReach`): the same for
+      stand-alone PHdrVals / PContacts, no `TailClean` hypothesis.
+      (ii) the `*x = T{}` types: the model has NO Reset function for them (only `PPAIs.reset`); the driver's op `R`
+      substitutes `{}` — `afb_driver_reset_simple` (definitional, stated as such), `afb_pais_reset`,
+      `afb_hdrlst_reset_slots`, `afb_clearUpTo_slots` (the per-element Resets inside the list Resets).
+      (iii) `afb_contacts_init`, `afb_contacts_reset_init`, `afb_contacts_init_new_iff`, `afb_hdrvals_init_any`,
+      `afb_hdrvals_init_new`, `afb_uriparams_reset_init`, `afb_urihdrs_reset_init`: Init only swaps the array; the
+      result is the zero object over the GIVEN array, new iff that array is cleared (a test shows a stale entry
+      being reported).  The model has no Init for the URI lists: `afbUriParamsInit` / `afbUriHdrsInit` transcribe the
+      one-line Go functions here and are NOT covered by the differential check.
+  (C) C02.  `afb_onePAI_resumableR`, `afb_onePAI_resume`, `afb_onePAI_stable`, `afb_onePAI_schedule(_from)`;
+      `afb_fline_resumableRC`, `afb_fline_schedule(_from)` (exact equality); `afb_contacts_resumableR`,
+      `afb_contacts_schedule(_from)`; `afb_pais_resumableR`, `afb_pais_schedule(_from)`; `afb_hdrline_resumableR`,
+      `afb_hdrline_schedule(_from)`; `afb_headers_resumableR`, `afb_headers_schedule(_from)`; `afb_RR_use` (what `RR`
+      gives a caller).  The `_from` versions start from any legitimate object, the others from new objects of any
+      capacity (their hypotheses are thereby shown satisfiable).
 -/
 import Sipsp.Proofs.NumRun
 import Sipsp.Proofs.Schedule
@@ -918,6 +966,173 @@ example : ∃ j st', 1 < j ∧ j < 11 ∧ parseUIntVal afbBufBig 0 {} = (j, .num
 /-- test: the concrete verdict -/
 example : (parseUIntVal afbBufBig 0 {}).2.1 = .numTooBig ∧ (parseCSeqVal afbBufBig 0 {}).2.1 = .numTooBig := by
   decide +kernel
+
+/-! ### complete behaviour on the canonical input: [spaces] digits CR LF non-continuation -/
+
+/-- the loop inside a number whose value fits: it runs through all the digits, accumulating the value -/
+theorem afb_cl_run_fit (b : Buf) (e : Nat) :
+    ∀ (k i : Nat) (st : PUIntBody), e - i = k → i ≤ e → e ≤ b.size → st.state = .found →
+      AllDigits (digitsOf b i e) → decFrom st.uiVal (digitsOf b i e) ≤ 4294967295 →
+      runLoop clMachine b i st = runLoop clMachine b e { st with uiVal := decFrom st.uiVal (digitsOf b i e) } := by
+  intro k
+  induction k with
+  | zero =>
+    intro i st hk hie he hs hd hfitv
+    have : i = e := by omega
+    subst this
+    rw [digitsOf_self, decFrom_nil]
+  | succ k ih =>
+    intro i st hk hie he hs hd hfitv
+    have hlt : i < b.size := by omega
+    have hb : b[i]? = some b[i] := Array.getElem?_eq_getElem hlt
+    rw [afb_digitsOf_cons b i e b[i] hb (by omega)] at hd hfitv ⊢
+    have hc : IsDigitB b[i] := hd _ List.mem_cons_self
+    have hstep := afb_clStep_digit b i b[i] st hc hs
+    rw [decFrom_cons] at hfitv ⊢
+    have hge := decFrom_ge (st.uiVal * 10 + dval b[i]) (digitsOf b (i + 1) e)
+    rw [if_neg (by omega)] at hstep
+    have hrun := runLoop_cont clMachine hb hstep
+    rw [if_pos (Nat.lt_succ_self i)] at hrun
+    rw [hrun]
+    exact ih (i + 1) { st with uiVal := st.uiVal * 10 + dval b[i] } (by omega) (by omega) he hs
+      (fun x hx => hd x (List.mem_cons_of_mem _ hx)) hfitv
+
+/-- a proper end of the header value at `e`: CR LF followed by a byte that does not continue the line -/
+def AfbTerm (b : Buf) (e : Nat) : Prop :=
+  b[e]? = some 13 ∧ b[e + 1]? = some 10 ∧ ∃ c2, b[e + 2]? = some c2 ∧ isWS c2 = false
+
+theorem afb_skipLWS_term (b : Buf) (e : Nat) (h : AfbTerm b e) : skipLWS b e 0 = (e, 2, .eoh) := by
+  obtain ⟨h0, h1, c2, h2, hw⟩ := h
+  have hs : skipCRLF b e = (e + 2, 2, .ok) := by
+    unfold skipCRLF
+    simp [h1, h0]
+  exact skipLWS_crlf_eoh h0 (by decide) (by decide) hs h2 hw
+
+/-- the object at the successful end of a number that began at `st.soffs` and ends before `e` -/
+def afbClFin (st : PUIntBody) (e : Nat) : PUIntBody :=
+  { st with sVal := PField.set st.soffs e, pnc := st.pnc || PField.setPanics st.soffs e, state := .fin, soffs := 0 }
+
+theorem afb_cl_term (b : Buf) (e : Nat) (st : PUIntBody) (hs : st.state = .found) (h : AfbTerm b e) :
+    runLoop clMachine b e st = (e + 2, .ok, afbClFin st e) := by
+  have hstep : clStep b e 13 st = .done (e + 2) .ok (afbClFin st e) := by
+    unfold clStep
+    rw [show isLWSch (13 : UInt8) = true by decide, hs]
+    simp only [if_true]
+    unfold lwsStd
+    rw [afb_skipLWS_term b e h]
+    rfl
+  exact runLoop_done clMachine h.1 hstep
+
+theorem afb_cl_skip_ws (b : Buf) (o i : Nat) (st : PUIntBody) (hs : st.state = .init) (hoi : o ≤ i)
+    (hws : AfbWsRun b o i) (hbi : ∃ c, b[i]? = some c ∧ IsDigitB c) :
+    runLoop clMachine b o st = runLoop clMachine b i st := by
+  rcases Nat.eq_or_lt_of_le hoi with heq | hlt
+  · subst heq; rfl
+  · obtain ⟨c, hc, hcd⟩ := hbi
+    obtain ⟨w, hw, hww⟩ := hws o (Nat.le_refl _) hlt
+    have hstep : clStep b o w st = .cont i st := by
+      unfold clStep
+      rw [afb_isLWS_of_WS hww, hs]
+      simp only [if_true]
+      exact afb_lwsStd_ws_run b o i c st clEOH id hc (afb_notWS_of_B hcd).1 (afb_notWS_of_B hcd).2 hoi hws
+    have hrun := runLoop_cont clMachine hw hstep
+    rw [if_pos hlt] at hrun
+    exact hrun
+
+theorem afb_cl_first_digit (b : Buf) (i : Nat) (c : UInt8) (st : PUIntBody) (hs : st.state = .init)
+    (hb : b[i]? = some c) (hc : IsDigitB c) :
+    runLoop clMachine b i st = runLoop clMachine b (i + 1) { st with state := .found, soffs := i, uiVal := c.toNat - 48 } := by
+  have hstep : clStep b i c st = .cont (i + 1) { st with state := .found, soffs := i, uiVal := c.toNat - 48 } := by
+    unfold clStep
+    rw [afb_notLWS_of_B hc, afb_isDigit_of_B hc, hs]
+    simp only [Bool.false_eq_true, if_false, if_true]
+  have hrun := runLoop_cont clMachine hb hstep
+  rw [if_pos (Nat.lt_succ_self i)] at hrun
+  exact hrun
+
+/-- **ParseUIntVal on the canonical input, complete**: a new object; optional spaces / tabs `[o, i)`; a non-empty digit
+    string `[i, e)`; CR LF and a byte that does not continue the line.  If the value fits 32 bits the call returns OK
+    just after the CR LF with exactly that value and the field `[i, e)`; otherwise NumTooBig at one of the digits. -/
+theorem afb_uint_canonical (b : Buf) (o i e : Nat) (hoi : o ≤ i) (hws : AfbWsRun b o i) (hie : i < e)
+    (hd : AllDigits (digitsOf b i e)) (ht : AfbTerm b e) :
+    (decOf (digitsOf b i e) ≤ 4294967295 →
+      parseUIntVal b o {} = (e + 2, .ok, { uiVal := decOf (digitsOf b i e), sVal := PField.set i e, state := .fin })) ∧
+    (decOf (digitsOf b i e) > 4294967295 → ∃ j st', i < j ∧ j < e ∧ parseUIntVal b o {} = (j, .numTooBig, st')) := by
+  have he : e ≤ b.size := Nat.le_of_lt (get?_lt ht.1)
+  refine ⟨fun hv => ?_, fun hv => afb_uint_big_rejected_ws b o i e {} rfl hoi hws hie he hd hv⟩
+  have hbi : b[i]? = some b[i] := Array.getElem?_eq_getElem (by omega)
+  have hd' := hd
+  rw [afb_digitsOf_cons b i e b[i] hbi hie] at hd'
+  have hci : IsDigitB b[i] := hd' _ List.mem_cons_self
+  have hval : decOf (digitsOf b i e) = decFrom (b[i].toNat - 48) (digitsOf b (i + 1) e) := by
+    rw [afb_digitsOf_cons b i e b[i] hbi hie, decOf, decFrom_cons, dval_def]; simp
+  unfold parseUIntVal
+  rw [if_neg (by decide), afb_cl_skip_ws b o i {} rfl hoi hws ⟨b[i], hbi, hci⟩,
+    afb_cl_first_digit b i b[i] {} rfl hbi hci,
+    afb_cl_run_fit b e (e - (i + 1)) (i + 1) _ rfl (by omega) he rfl
+      (fun x hx => hd' x (List.mem_cons_of_mem _ hx)) (by rw [← hval]; exact hv),
+    afb_cl_term b e _ rfl ht]
+  have hp : PField.setPanics i e = false := by unfold PField.setPanics; simp; omega
+  simp only [afbClFin, hp, ← hval, Bool.or_false]
+
+/-- **ParseCLenVal on the canonical input, complete** (buffer within the 65,535-byte limit): OK with the exact value
+    and field iff the value is at most 2^24 and written with at most 9 digits; NumTooBig otherwise -/
+theorem afb_clen_canonical (b : Buf) (o i e : Nat) (hfit : b.size ≤ 65535) (hoi : o ≤ i) (hws : AfbWsRun b o i)
+    (hie : i < e) (hd : AllDigits (digitsOf b i e)) (ht : AfbTerm b e) :
+    (decOf (digitsOf b i e) ≤ 16777216 ∧ e - i ≤ 9 →
+      parseCLenVal b o {} = (e + 2, .ok, { uiVal := decOf (digitsOf b i e), sVal := PField.set i e, state := .fin })) ∧
+    (¬ (decOf (digitsOf b i e) ≤ 16777216 ∧ e - i ≤ 9) → (parseCLenVal b o {}).2.1 = .numTooBig) := by
+  have he : e ≤ b.size := Nat.le_of_lt (get?_lt ht.1)
+  have hcan := afb_uint_canonical b o i e hoi hws hie hd ht
+  have hset : PField.set i e = ⟨i, e - i⟩ := pfield_set_eq i e (by omega) (by omega)
+  constructor
+  · intro hv
+    unfold parseCLenVal
+    rw [hcan.1 (by omega)]
+    simp only [hset, MaxCLenValueSize, MaxClenValue]
+    rw [if_neg]
+    simp
+    omega
+  · intro hv
+    by_cases hbig : decOf (digitsOf b i e) ≤ 4294967295
+    · unfold parseCLenVal
+      rw [hcan.1 hbig]
+      simp only [hset, MaxCLenValueSize, MaxClenValue]
+      rw [if_pos]
+      simp
+      omega
+    · obtain ⟨j, st', _, _, h3⟩ := hcan.2 (by omega)
+      unfold parseCLenVal
+      rw [h3]
+
+/-- the CSeq end-of-header code rejects a number field longer than 10 bytes (e.g. leading zeros) with NumTooBig -/
+theorem afb_csFinish_long (st : PCSeqBody) (b : Buf) (n crl : Nat) (h : st.cseq.len > 10 ∨ st.cseqNo > 4294967295) :
+    (csFinish st b n crl).2.1 = .numTooBig := by
+  unfold csFinish
+  simp only
+  rw [if_pos]
+  simp [MaxCSeqNValueSize]
+  exact h
+
+/-- test: the canonical theorem instantiated: "  4711 CR LF X" -/
+example : parseCLenVal afbBufClen 0 {} = (8, .ok, { uiVal := 4711, sVal := PField.set 2 6, state := .fin }) := by
+  have hd : digitsOf afbBufClen 2 6 = [52, 55, 49, 49] := by decide +kernel
+  have hv : decOf (digitsOf afbBufClen 2 6) = 4711 := by decide +kernel
+  have := (afb_clen_canonical afbBufClen 0 2 6 (by decide) (by decide)
+    (by intro k _ h2
+        have : k = 0 ∨ k = 1 := by omega
+        rcases this with rfl | rfl <;> exact ⟨32, by decide, by decide⟩)
+    (by decide)
+    (by rw [hd]; intro c hc
+        simp only [List.mem_cons, List.not_mem_nil, or_false] at hc
+        rcases hc with h | h | h | h <;> (subst h; unfold IsDigitB; decide))
+    ⟨by decide, by decide, 88, by decide, by decide⟩).1 (by rw [hv]; decide)
+  rw [hv] at this; exact this
+
+/-- test: 16777217 = 2^24 + 1 is rejected by ParseCLenVal but accepted by ParseUIntVal (Expires) -/
+example : (parseCLenVal #[49, 54, 55, 55, 55, 50, 49, 55, 13, 10, 88] 0 {}).2.1 = .numTooBig ∧
+    (parseUIntVal #[49, 54, 55, 55, 55, 50, 49, 55, 13, 10, 88] 0 {}).2.1 = .ok ∧
+    (parseUIntVal #[49, 54, 55, 55, 55, 50, 49, 55, 13, 10, 88] 0 {}).2.2.uiVal = 16777217 := by decide +kernel
 
 /-! ## (B) C12: Reset / Init make a used object behave like a new one
 
